@@ -73,6 +73,7 @@ func MapHas(m map[string]string, k string) bool   { panic("intrinsic") }
 func StrPtrEq(a, b *string) bool               { panic("intrinsic") }
 func Int64PtrEq(a, b *int64) bool              { panic("intrinsic") }
 func HasPrefix(s, p string) bool               { panic("intrinsic") }
+func GrpcCode(err error) int                   { panic("intrinsic") }
 func TemplateTrouble() bool                    { panic("intrinsic") }
 func Like(s, pattern string) bool              { panic("intrinsic") }
 func LikePattern(clientPattern string) string  { panic("intrinsic") }
